@@ -58,6 +58,42 @@ FRESH_CALLS = ("list", "sorted", "tuple", "set", "frozenset", "numpy.array", "nu
 PINNED_ARG_WRITES = {op: [False] * len(ARG_KINDS) for op in ARG_PARAMS}
 
 
+def own_path_kinds(fn, param):
+    """The classes of object for which the method returns on a path of its own: every `if` of the method that holds a
+    `return` before the common one and whose test asks for the class of the argument - `isinstance(<param>, K)`,
+    `type(<param>) is K` - by the classes named.  `if isinstance(param, K): param = f(param)` (a conversion, then the
+    common path) is not a path of its own; an early return whose test does not look at the argument (it splits on the
+    frame: `if isinstance(self._rows, list): return …`) is not a dispatch on the kind of container either: the harness
+    decides there.  A test that reads the argument in another way (`if not indexes: return …`) is not understood:
+    degrade."""
+    if not (fn.body and isinstance(fn.body[-1], ast.Return)):
+        raise KeyError("the method ends in its one common return")
+    kinds = []
+    for st in fn.body[:-1]:
+        for node in ast.walk(st):
+            if isinstance(node, (ast.FunctionDef, ast.Lambda)):
+                raise KeyError("nested function")  # (returns of an inner function are not returns of the method)
+        for node in ast.walk(st):
+            if not (isinstance(node, ast.If) and any(isinstance(x, ast.Return) for b in node.body + node.orelse for x in ast.walk(b))):
+                continue
+            if not any(isinstance(x, ast.Name) and x.id == param for x in ast.walk(node.test)):
+                continue
+            named = []
+            for c in ast.walk(node.test):
+                if (isinstance(c, ast.Call) and ast.unparse(c.func) == "isinstance" and len(c.args) == 2
+                        and ast.unparse(c.args[0]) == param):
+                    k = c.args[1]
+                    named += [ast.unparse(e) for e in (k.elts if isinstance(k, ast.Tuple) else [k])]
+                if (isinstance(c, ast.Compare) and ast.unparse(c.left) == "type(%s)" % param and len(c.ops) == 1
+                        and isinstance(c.ops[0], (ast.Is, ast.Eq, ast.In))):
+                    k = c.comparators[0]
+                    named += [ast.unparse(e) for e in (k.elts if isinstance(k, (ast.Tuple, ast.List, ast.Set)) else [k])]
+            if not named:
+                raise KeyError("an early return under a test of the argument that names no class")
+            kinds += named
+    return sorted(set(kinds))
+
+
 def arg_written(fn, param):
     """For each kind of argument object: does the method write into the object the caller passed?  The statements of
     the method are walked in order; `param` starts bound to the caller's object; `if [not] isinstance(param, (...))`
@@ -597,6 +633,10 @@ def generate(o):
     for _op, _param in ARG_PARAMS.items():
         aw[_op] = o.item("frame.argument_written." + _op, (lambda _op=_op, _param=_param: arg_written(find_function(src.tree, _op, "DataFrame"), _param)),
                          PINNED_ARG_WRITES[_op])
+    # pass 7: the kinds of argument object a method treats on a path of its own
+    opk = {}
+    for _op in ("filter", "take"):
+        opk[_op] = o.item("frame.own_path_kinds." + _op, (lambda _op=_op: own_path_kinds(find_function(src.tree, _op, "DataFrame"), ARG_PARAMS[_op])), [])
     # is every definition the hand-written reference one? (then a model/mirror difference can only be a harness fault)
     as_pinned = (v["slice.neg_test"] == PINNED["slice.neg_test"] and v["slice.neg_start"] == PINNED["slice.neg_start"]
                  and v["slice.stop"] == PINNED["slice.stop"] and v["slice.zero"] == PINNED["slice.zero_length_test"]
@@ -675,5 +715,11 @@ def generate(o):
         for _i, _w in enumerate(aw[_op]):
             text += "  | %s, %d => %s\n" % (json_str(_op), _i, "true" if _w else "false")
     text += "  | _, _ => false\n"
+    text += "/-- the classes of argument object (index collection of `take`, mask of `filter`) for which the method has a return path of its\n"
+    text += "own - `if isinstance(indexes, K) …: … return …` before the scan that serves every kind of object -/\n"
+    text += "def ownPathKinds : String → List String\n"
+    for _op in sorted(opk):
+        text += "  | %s => [%s]\n" % (json_str(_op), ", ".join(json_str(x) for x in opk[_op]))
+    text += "  | _ => []\n"
     text += "end Gen.Frame\n"
     o.files["FrameExpr.lean"] = text
